@@ -46,10 +46,6 @@ package cmd
 //@   ensures result != nil && isAuthUnary(result)
 //@   modifies nothing
 //@ import regattaserver "github.com/jamf/regatta/regattaserver"
-//@ func regattaserver.NewServer
-//@   assumed
-//@   ensures result != nil
-//@   modifies nothing
 // resolveURL: an endpoint is secure exactly for the schemes https and unixs (TLS over a unix socket)
 //@ import url "net/url"
 //@ import stdlog "log"
@@ -132,10 +128,6 @@ package cmd
 //@   modifies nothing
 //@ func regattapb.NewKVClient
 //@   assumed
-//@   modifies nothing
-//@ func regattaserver.NewForwardingKVServer
-//@   assumed
-//@   ensures result != nil
 //@   modifies nothing
 
 // leader API server: tables service <- tables.token, maintenance (backup) service <- maintenance.token
